@@ -54,6 +54,21 @@ func c05Check(ctx *vfCtx, c c05Case) {
 		ctx.NonTrivial()
 	}
 
+	// redactions that FAIL half-way come first (events the algorithm cannot process: content that is
+	// not an object, a number no float holds) - carrying every protected key, so that anything a failed
+	// call leaves behind would show in the redaction judged next
+	if len(c.Event)%2 == 0 {
+		ctx.Class("after-failed-redactions")
+		for _, bad := range []string{
+			`{"type":"m.room.member","content":[],"state_key":"c05-left-behind","origin":"left.behind.example","prev_state":[["$left:behind",{}]],"membership":"ban","sender":"@left:behind.example","room_id":"!left:behind.example","redacts":"$left:behind","depth":77,"origin_server_ts":77,"prev_events":[],"auth_events":[],"hashes":{"sha256":"x"},"signatures":{}}`,
+			`{"type":"m.room.member","content":{"membership":"join","join_authorised_via_users_server":"@left:behind.example","third_party_invite":{"signed":{"token":"left-behind"}},"x":1e999},"state_key":"c05-left-behind","sender":"@left:behind.example","room_id":"!left:behind.example","depth":77,"origin_server_ts":77,"prev_events":[],"auth_events":[],"hashes":{"sha256":"x"},"signatures":{}}`,
+			`{"type":"m.room.power_levels","content":{"users":{"@left:behind.example":100},"ban":1e999,"invite":77,"notifications":{"room":77}},"state_key":"","sender":"@left:behind.example","room_id":"!left:behind.example","depth":77,"origin_server_ts":77,"prev_events":[],"auth_events":[],"hashes":{"sha256":"x"},"signatures":{}}`,
+		} {
+			if vfCatch(ctx, "C05/failed-redaction", func() { _, _ = impl.RedactEventJSON([]byte(bad)) }) {
+				return
+			}
+		}
+	}
 	var red []byte
 	if vfCatch(ctx, "C05", func() { red, err = impl.RedactEventJSON(append([]byte(nil), c.Event...)) }) {
 		return
